@@ -13,7 +13,7 @@
 EXTENDS OpenAPIOps, Json
 TraceLog == ndJsonDeserialize("trace.ndjson")
 VARIABLES l, seenM, seenO
-tvars == <<ovars, vars, l, seenM, seenO>>
+tvars == <<ovars, hvars, l, seenM, seenO>>
 
 Ev == TraceLog[l]
 Is(e) == l <= Len(TraceLog) /\ TraceLog[l].ev = e
@@ -22,9 +22,9 @@ ToOp(e) == Op(e.method, e.path, {P(p.name, p.in, p.required) : p \in RangeQ(e.pa
 \* documented operations are compared without their Authorization header parameter (see DocParam)
 ToDocOp(e) == LET o == ToOp(e) IN [o EXCEPT !.params = {p \in @ : DocParam(p)}]
 ToMount(e) == Mnt(e.method, e.pattern)
-Step == l' = l + 1 /\ UNCHANGED vars
+Step == l' = l + 1 /\ UNCHANGED hvars
 
-TraceInit == /\ TLCSet(1, 1) /\ l = 1 /\ seenM = {} /\ seenO = {} /\ OInit /\ Init
+TraceInit == /\ TLCSet(1, 1) /\ l = 1 /\ seenM = {} /\ seenO = {} /\ OInit /\ Init /\ xflag = "none"
 TReset == /\ Is("reset") /\ opc \in {"api", "done"}
           /\ design' = [Ev.design EXCEPT !.devs = Deviations] /\ opc' = "server"
           /\ mounts' = {} /\ srvOps' = {} /\ doc3' = {} /\ doc2' = {} /\ verdicts' = NoVerdicts
@@ -58,4 +58,38 @@ HWM == IF l > TLCGet(1) THEN TLCSet(1, l) ELSE TRUE
 TraceAccepted == PrintT(<<"HWM", TLCGet(1)>>) /\ TLCGet(1) = Len(TraceLog) + 1
 \* with no deviation enabled an accepted trace is a behaviour that satisfies C07
 PropertyHolds == Deviations = {} => MountEqualsExpected /\ Doc3EqualsMount /\ Doc2EqualsMount /\ JsonEqualsYaml /\ DocsValid
+
+---------------------------------------------------------------------------
+(* Batch trace validation for C14.  One case per exchange run through the real generated client / server:
+     xreset(pa, ra, tagged, pv, rv, flag)      the method shape and the values (what HTTPTransport enumerates, or a raw request)
+     xverdict(sreq, invoked, status, sresp)    kin-openapi's verdict on the recorded wire request, the server's decision,
+                                               kin-openapi's verdict on the recorded wire response
+   and per declared-error response of the C07 designs:  xerr(status, sresp).
+   Between xreset and xverdict the mechanism of HTTPTransport (under the run's Deviations) runs silently up to the server's
+   answer.  A verdict is accepted when the exchange satisfies C14 (schema and server agree, consistently with the design),
+   or when it is exactly what the mechanism does under the recorded deviations. *)
+XMal == \E i \in PIdx : Malformed(pv[i])
+XSat == Satisfies(cfg.pa, pv) /\ xflag = "none" /\ ~XMal
+XVio == Violates(cfg.pa, pv) \/ XMal
+TXReset == /\ Is("xreset") /\ pc \in {"pick", "done"}
+           /\ cfg' = [pa |-> Ev.pa, ra |-> Ev.ra, tagged |-> Ev.tagged, devs |-> Deviations] /\ pv' = Ev.pv /\ rv' = Ev.rv /\ xflag' = Ev.flag
+           /\ pc' = "encode" /\ wire' = <<>> /\ delivered' = <<>> /\ invoked' = FALSE /\ status' = 0 /\ errname' = "none"
+           /\ rwire' = <<>> /\ returned' = <<>> /\ cerr' = "none"
+           /\ l' = l + 1 /\ UNCHANGED <<ovars, seenM, seenO>>
+TXSilent == /\ pc \in {"encode", "route", "decode", "validate", "invoke", "respond"} /\ XNext
+            /\ UNCHANGED <<ovars, l, seenM, seenO>>
+TXVerdict == /\ Is("xverdict") /\ pc = "cswitch"
+             /\ LET so == Ev.sreq = "ok" IN
+                  \/ so = Ev.invoked /\ (so => ~XVio) /\ (~so => ~XSat)
+                  \/ so \in SchemaReqVerdicts /\ Ev.invoked = invoked
+             /\ \/ Ev.sresp \in {"ok", "none"}
+                \/ ~(Ev.invoked /\ Ev.status \in 200..299 /\ Satisfies(cfg.ra, rv))
+                \/ invoked /\ FALSE \in SchemaRespVerdicts
+             /\ pc' = "done" /\ UNCHANGED <<cfg, pv, rv, wire, delivered, invoked, status, errname, rwire, returned, cerr, xflag>>
+             /\ l' = l + 1 /\ UNCHANGED <<ovars, seenM, seenO>>
+TXErr == /\ Is("xerr") /\ pc \in {"pick", "done"}
+         /\ (Ev.sresp = "ok" \/ "schema.error_response_media_type" \in Deviations)
+         /\ l' = l + 1 /\ UNCHANGED <<ovars, hvars, seenM, seenO>>
+XTraceNext == TXReset \/ TXSilent \/ TXVerdict \/ TXErr
+XTraceSpec == TraceInit /\ [][XTraceNext]_tvars
 =============================================================================
